@@ -33,6 +33,9 @@ pub struct Boundary {
     /// i.e. no verdict was reached *at* the boundary
     pub proceeded: bool,
     depth: usize,
+    /// the status line of this boundary has been printed (its print span is over), so
+    /// whatever timer starts or stops next reflects the solver's decision here
+    decided: bool,
 }
 
 #[derive(Clone, Debug, Default)]
@@ -147,11 +150,14 @@ pub fn analyse(log: &[Ev]) -> Vec<SolveTrace> {
                     Label::TimerStart(k) => {
                         // the hi bound for the previous boundary is fixed when
                         // the solver commits to continuing
+                        // timers started between the boundary record and the end of its
+                        // print span (e.g. one wrapped around the bookkeeping itself) say
+                        // nothing about the decision
                         fix_hi(&mut open, th, ps);
                         if let Some(t) = open.get_mut(&th) {
                             if let Some(b) = t.boundaries.last_mut() {
                                 // a sibling sub-step of the boundary's enclosing timer
-                                if ps.stack.len() == b.depth {
+                                if b.decided && ps.stack.len() == b.depth {
                                     b.proceeded = true;
                                 }
                             }
@@ -175,9 +181,16 @@ pub fn analyse(log: &[Ev]) -> Vec<SolveTrace> {
                             t.print_spans += 1;
                         }
                     }
-                    Label::ResumeEnd => ps.in_resume = false,
+                    Label::ResumeEnd => {
+                        ps.in_resume = false;
+                        if let Some(t) = open.get_mut(&th) {
+                            if let Some(b) = t.boundaries.last_mut() {
+                                b.decided = true;
+                            }
+                        }
+                    }
                     Label::Iteration(it) => {
-                        fix_hi(&mut open, th, ps);
+                        force_fix_hi(&mut open, th, ps);
                         // a boundary is an iteration record made while timers are running
                         // (the extra record after the loop is made with all timers stopped)
                         if !ps.stack.is_empty() {
@@ -193,6 +206,7 @@ pub fn analyse(log: &[Ev]) -> Vec<SolveTrace> {
                                     clock_idx: *reads_per_thread.get(&th).unwrap_or(&0),
                                     proceeded: false,
                                     depth: ps.stack.len(),
+                                    decided: false,
                                 });
                             }
                         }
@@ -253,7 +267,19 @@ pub fn analyse(log: &[Ev]) -> Vec<SolveTrace> {
     out
 }
 
+/// the hi bound of the last boundary is fixed at the first timer event after its print
+/// span (or, if the implementation prints outside any suspend/resume, at the next boundary)
 fn fix_hi(open: &mut BTreeMap<u8, SolveTrace>, th: u8, ps: &PerSolver) {
+    if let Some(t) = open.get_mut(&th) {
+        if let Some(b) = t.boundaries.last_mut() {
+            if b.t_hi == u64::MAX && b.decided {
+                b.t_hi = ps.t_hi();
+            }
+        }
+    }
+}
+
+fn force_fix_hi(open: &mut BTreeMap<u8, SolveTrace>, th: u8, ps: &PerSolver) {
     if let Some(t) = open.get_mut(&th) {
         if let Some(b) = t.boundaries.last_mut() {
             if b.t_hi == u64::MAX {
